@@ -29,7 +29,8 @@ EXPLANATION = (
     "C05 R5.2) pandapower decides from net.converged whether a step whose error it swallowed (continue_on_divergence) was "
     "calculated, and the output writer logs whatever the result tables hold, so the reset of net.converged and of the result "
     "tables must precede every call of pipeflow that can raise: a step without solution then never carries the previous "
-    "step's results. Not decided: "
+    "step's results. (R13.4, shared with C20 R20.4/R20.6) in a multi-energy loop exactly the member nets named by the "
+    "coupling controllers of a level are recalculated after it, and every net such a controller writes is named. Not decided: "
     "equality of logged results with a fresh run (runtime; rests on C12).")
 ASSUMPTIONS = ["pandapower's run_time_step catches ts_variables['errors'] and calls pf_not_converged, which re-raises unless "
                "continue_on_divergence", "pandapower's _evaluate_net re-raises the member net's error unless the member's "
@@ -244,4 +245,12 @@ def r13_3(run):
     r5_2(run)
 
 
-RULES = [("R13.1", r13_1), ("R13.2", r13_2), ("R13.3", r13_3)]
+def r13_4(run):
+    """multi-energy time series: after a coupling controller acted, the member nets it names are recalculated; a net that
+    is written but not named would log the results of the previous step (shared with C20 R20.4 / R20.6)"""
+    from .c20 import r20_4, r20_6
+    r20_4(run)
+    r20_6(run)
+
+
+RULES = [("R13.1", r13_1), ("R13.2", r13_2), ("R13.3", r13_3), ("R13.4", r13_4)]
